@@ -247,6 +247,20 @@ def worker_contract(vals: List[int], fails: List[bool]) -> bool:
     return ok and ev[pos:] == [('get', None), ('task_done', None)]
 
 
+def starmap_one_result_per_item(vals: List[int], arity2: bool) -> bool:
+    """
+    pre: 1 <= len(vals) <= 3
+    post: _
+    """
+    # starmap/starcall take a list of argument tuples: one result per tuple, in order, whatever the arity of the tuples
+    p = ThreadPool(size=1)
+    if arity2:
+        out = list(p.starmap((lambda a, b: a + b), [(v, 1) for v in vals]))
+        return out == [v + 1 for v in vals]
+    out = list(p.starmap((lambda a: a + 1), [(v,) for v in vals]))
+    return out == [v + 1 for v in vals]
+
+
 def twin_order(perm: List[int], vals: List[int], fails: List[bool], k: int) -> bool:
     """
     pre: 2 <= len(perm) <= 4 and len(vals) == len(perm) and len(fails) == len(perm)
